@@ -644,6 +644,9 @@ def atoms_full(marker=""):
         ("tpl", (("var", leaf(V("d"), ("default", S("z w")))),)),
         ("tpl", (("tag", "{% lorem 1 w %}", "lorem"),)),
         ("tpl", (("tag", "{% lorem 2 w %}", "lorem ipsum"), ("text", "!"))),
+        # a nested tag whose compile function needs the enclosing template's origin (loader tags)
+        ("tpl", (("tag", "{% include 'c02inc.html' %}", "INC"),)),
+        ("tpl", (("text", "<"), ("tag", "{% include 'c02inc.html' %}", "INC"), ("text", ">"))),
         ("tpl", (("text", "a" + m + " "), ("comment", "c"))),
     ] + tpl_quote_atoms(m) + [V(n) for n in TYPE_VARS]
 
